@@ -27,16 +27,17 @@ def main():
     ap.add_argument("--checks", default="")
     ap.add_argument("--thorough", action="store_true")
     ap.add_argument("--src", default="")
+    ap.add_argument("--base", default="HEAD", help="commit of /repo the change was written against (default HEAD)")
     a = ap.parse_args()
     src = a.src or f"/tmp/seed/{a.prop}-out/{a.variant}"
     name = f"{a.prop}-{a.variant}"
     wt = f"/tmp/sv-{name}"
     subprocess.run(["git", "-C", "/repo", "worktree", "remove", "--force", wt], capture_output=True)
     shutil.rmtree(wt, ignore_errors=True)
-    rc, o = sh(["git", "-C", "/repo", "worktree", "add", "--detach", "-q", wt, "HEAD"])
+    rc, o = sh(["git", "-C", "/repo", "worktree", "add", "--detach", "-q", wt, a.base])
     if rc != 0:
         print(o); return 2
-    meta = {"property": a.prop, "variant": a.variant, "source": src, "ran": []}
+    meta = {"property": a.prop, "variant": a.variant, "source": src, "ran": [], "base": a.base}
     try:
         patch = os.path.join(src, "patch.diff")
         rc, o = sh(["git", "-C", wt, "apply", "--whitespace=nowarn", patch])
